@@ -28,12 +28,37 @@ def obs(kn, l):
     return o
 
 
+def _close(x, y):
+    """the integrator sums over a set of interval objects hashed by identity: igral / err are reproducible up to rounding only"""
+    if x == y:
+        return True
+    try:
+        a, b = float.fromhex(x), float.fromhex(y)
+    except (TypeError, ValueError):
+        return False
+    return abs(a - b) <= 1e-9 * max(abs(a), abs(b))
+
+
+def diff_obs(kn, o1, o2):
+    tol = kn.split(":")[-1] == "integ"
+    return [k for k in o1 if o1[k] != o2.get(k) and not (tol and k in ("lossT", "lossF", "igral") and _close(o1[k], o2.get(k)))]
+
+
 def case(arg):
     kn, seed, nops = arg
     rng = random.Random(seed)
     a, b = X.make(kn), X.make(kn)
     r = X.Runner(kn, [a, b], seed)
     ops = L.gen_ops(random.Random(seed), X.base_kind(kn), nops)
+    if kn.split(":")[-1] == "integ":
+        # an IntegratorLearner only starts to do something after its first rule (33 abscissae) is complete: warm both twins up
+        # with a few large requests delivered out of order, leaving some abscissae outstanding
+        for _ in range(rng.choice([1, 2, 3, 5])):
+            r.ask(rng.choice([17, 33, 40]), True)
+            out = list(r.outstanding)
+            rng.shuffle(out)
+            for p in out[: max(1, len(out) - rng.choice([0, 0, 2, 7]))]:
+                r.tell(p)
     extra = 0
     failed_asks = [0]
     l2d_stack = [0]
@@ -60,8 +85,8 @@ def case(arg):
                         # a request that cannot be served (finite sequence exhausted, converged integrator): it must fail
                         # cleanly - "no observable effect" holds for every request size
                         after = obs(kn, a)
-                        if before != after:
-                            d = [k for k in before if before[k] != after[k]]
+                        d = diff_obs(kn, before, after)
+                        if d:
                             return fail("failed_ask_changed_state",
                                         f"ask({n}, False) raised {type(e1).__name__} and left {d} changed", i, op)
                         try:
@@ -70,7 +95,7 @@ def case(arg):
                         except Exception as e2:  # noqa: BLE001
                             if type(e2) is not type(e1):
                                 return fail("repeat_differs", f"ask({n}, False) raised {type(e1).__name__} then {type(e2).__name__}", i, op)
-                        if obs(kn, a) != before:
+                        if diff_obs(kn, obs(kn, a), before):
                             return fail("failed_ask_changed_state", f"repeated failing ask({n}, False) changed the state", i, op)
                         extra += 1
                         failed_asks[0] += 1
@@ -88,8 +113,8 @@ def case(arg):
                           else:
                               return fail("repeat_differs", f"ask({n}, False) twice gave {r1[0]} then {r2[0]}", i, op)
                       after = obs(kn, a)
-                      if before != after:
-                          d = [k for k in before if before[k] != after[k]]
+                      d = diff_obs(kn, before, after)
+                      if d:
                           if not (stack0 is not None and stack0 != _stacks(kn, a) and set(d) <= {"lossT", "lossF"}):
                               return fail("state_changed", f"ask({n}, False) changed {d}", i, op)
                           # Learner2D: the rewritten stack is cut to stack_size entries; never evaluated corner points
@@ -141,8 +166,8 @@ def case(arg):
             tb = type(e).__name__
             return {"kind": kn, "seed": seed, "nops": nops, "fail": None, "extra": extra, "aborted": tb}
         oa, ob = obs(kn, a), obs(kn, b)
-        if oa != ob:
-            d = [k for k in oa if oa[k] != ob[k]]
+        d = diff_obs(kn, oa, ob)
+        if d:
             return fail("twin_state", f"twins differ in {d} (A received {extra} non-committing asks)", i, op)
     return {"kind": kn, "seed": seed, "nops": nops, "extra": extra, "failed_asks": failed_asks[0], "fail": None,
             "l2d_stack": l2d_stack[0], "l2d_order": l2d_order[0]}
